@@ -103,6 +103,17 @@ Theorem C05_upsert_spec : forall atts path las ex f,
 Proof. exact upsert_spec. Qed.
 Print Assumptions C05_upsert_spec.
 
+(* the content replay of rebase / cherry-pick keeps the attestations of files that the commit being
+   written does not contain (known class Known_C05_replay; witness replayed on the real binary) *)
+Theorem C05_replay_refuted :
+  exists head_state changes files self,
+    note_ok (fun p => if str_eqb p [97] then Some 3 else if str_eqb p [98] then Some 2 else None) self
+            (mkNote (to_authorship_log head_state) [w_s] self) = true
+    /\ note_ok files self (mkNote (replay_commit (to_authorship_log head_state) changes) [w_s] self) = false
+    /\ Known_C05_replay true true = true.
+Proof. exact replay_refuted. Qed.
+Print Assumptions C05_replay_refuted.
+
 (* ---------------------------------------------------------------- (3) the remap *)
 Theorem C05_remap_base : forall pre ws1 ws2 v post target,
   find_sub gn_remap_field (pre ++ gn_remap_field ++ ws1 ++ [58] ++ ws2 ++ [c_dq] ++ v ++ [c_dq] ++ post)
